@@ -97,7 +97,33 @@ def _flat_text(fi, expr, at):
     None when the expression is not of that shape."""
     from .common import sym_expr
 
+    def accumulated(name):
+        """x = A; x += B; x += C in one block, nothing else binding x: A + B + C"""
+        binds = [n for n in walk_own(fi.node) if isinstance(n, (ast.Assign, ast.AugAssign)) and
+                 any(isinstance(t, ast.Name) and t.id == name for t in (n.targets if isinstance(n, ast.Assign) else [n.target]))]
+        stores = [n for n in walk_own(fi.node) if isinstance(n, ast.Name) and n.id == name and isinstance(n.ctx, (ast.Store, ast.Del))]
+        if len(binds) < 2 or len(stores) != len(binds) or not isinstance(binds[0], ast.Assign) or len(binds[0].targets) != 1:
+            return None
+        if not all(isinstance(b_, ast.AugAssign) and isinstance(b_.op, ast.Add) for b_ in binds[1:]):
+            return None
+        from .capacity import _block_of
+        blk = _block_of(binds[0])
+        if blk is None or not all(any(b_ is x_ for x_ in blk) for b_ in binds):
+            return None
+        e = binds[0].value
+        for b_ in binds[1:]:
+            e = ast.BinOp(left=e, op=ast.Add(), right=b_.value)
+        return ast.fix_missing_locations(ast.parse(ast.unparse(e), mode="eval").body)
+
     def dec(x):
+        if isinstance(x, ast.Call) and isinstance(x.func, ast.Name) and x.func.id == "str" and len(x.args) == 2 and not x.keywords and norm(x.args[1]) in ("'utf-8'", "'ascii'"):
+            # str(b, 'utf-8') is b.decode('utf-8')
+            inner = x.args[0]
+            if isinstance(inner, ast.Name):
+                acc = accumulated(inner.id)
+                if acc is not None:
+                    inner = acc
+            return _flat_bytes(fi, inner, at)
         if isinstance(x, ast.Name):
             x2 = sym_expr(fi, x, at, allow_calls=("base64.b64encode",))
             if isinstance(x2, ast.Name):
@@ -107,7 +133,10 @@ def _flat_text(fi, expr, at):
             else:
                 x = x2
         if isinstance(x, ast.Call) and isinstance(x.func, ast.Attribute) and x.func.attr == "decode" and [norm(a) for a in x.args] in (["'utf-8'"], ["'ascii'"], []) and not x.keywords:
-            return _flat_bytes(fi, x.func.value, at)
+            inner = x.func.value
+            if isinstance(inner, ast.Name) and accumulated(inner.id) is not None:
+                inner = accumulated(inner.id)
+            return _flat_bytes(fi, inner, at)
         if isinstance(x, ast.Constant) and isinstance(x.value, str):
             return [x.value.encode("utf-8")]
         if isinstance(x, ast.BinOp) and isinstance(x.op, ast.Add):
@@ -167,6 +196,12 @@ def r1(ctx):
         # the fields are taken by unpacking into exactly `arity` names: a wrong field count raises ValueError by itself
         ctx.holds("C19.R1", vp, "the %d fields are unpacked from the split result (a wrong count raises ValueError, never IndexError)" % arity)
         maxidx = arity - 1
+    elif not subs and all(isinstance(n.slice, ast.Slice) for n in walk_own(vp.node) if isinstance(n, ast.Subscript) and norm(n.value) == pv) \
+            and any(isinstance(n, ast.Subscript) and norm(n.value) == pv for n in walk_own(vp.node)):
+        # the fields are only ever taken by slices of the split result: a slice cannot raise IndexError, and unpacking a slice of
+        # the wrong length raises ValueError
+        ctx.holds("C19.R1", vp, "the fields are taken by slices of the split result (a missing field raises ValueError, never IndexError)")
+        maxidx = 3
     else:
         ctx.expect("C19.R1", "constant-index subscripts of the split result", len(subs), 4)
         maxidx = max(n.slice.value for n in subs)
@@ -204,6 +239,9 @@ def r1(ctx):
                         ok = isinstance(nxt, ast.If) and norm(nxt.test) == ev and len(nxt.body) == 1 and isinstance(nxt.body[0], ast.Raise) and norm(nxt.body[0].exc) == ev
                     if any(isinstance(s, ast.Raise) and isinstance(s.exc, ast.Call) and norm(s.exc.func) in ("ValueError", "TypeError") for s in h.body):
                         ok = True
+                    # ... or built first and raised by name at the end of the handler
+                    if asg and isinstance(h.body[-1], ast.Raise) and h.body[-1].exc is not None and norm(h.body[-1].exc) == norm(asg[-1].targets[0]) and h.body[-2:-1] == [asg[-1]]:
+                        ok = True
         ctx.check(ok, "C19.R1", vp, "struct.error from the parameter block is converted to ValueError", line=u.lineno)
     # every other raise in verify_password is ValueError/TypeError; no handler swallows or converts to another type
     for rz in [n for n in walk_own(vp.node) if isinstance(n, ast.Raise)]:
@@ -218,7 +256,7 @@ def r1(ctx):
     types = sorted(norm(h.type) if h.type is not None else "<bare>" for h in hs)
     ctx.check(types == ["InvalidKey", "struct.error"], "C19.R1", vp, "handlers: struct.error (converted) and InvalidKey (-> False) only", "no broad handler can turn a malformed hash into a result", witness=types)
     # calls on hash-derived data outside handlers: only the documented library calls
-    lib = sorted({norm(c.func) for c in walk_own(vp.node) if isinstance(c, ast.Call)} - {"isinstance", "type", "TypeError", "ValueError", "str", "len"})
+    lib = sorted({norm(c.func) for c in walk_own(vp.node) if isinstance(c, ast.Call)} - {"isinstance", "type", "TypeError", "ValueError", "str", "len", "tuple", "list"})
     allowed = {"base64.b64decode", "struct.unpack", "scrypt.Scrypt", "kdf.verify", "digest.update", "digest.finalize", "hashes.Hash", "hashes.SHA256", "default_backend",
                "password_hash.encode('utf-8').split", "password_hash.encode"}
     ctx.check(set(lib) <= allowed, "C19.R1", vp, "operations on hash-derived data are the ones in the library exception table", witness=sorted(set(lib) - allowed))
@@ -264,6 +302,19 @@ def r2(ctx):
     ctx.check([norm(a) for a in ver[0].args] == ["key_material", "expected"], "C19.R2", vp, "verify(pre-hashed password, expected digest)", witness=[norm(a) for a in ver[0].args])
 
 
+def _unpack_targets(vp, site):
+    """names the unpacked values are bound to (directly, or after the tuple was held in a temporary)"""
+    par = site.call._parent
+    if isinstance(par, ast.Assign) and isinstance(par.targets[0], ast.Tuple):
+        return [norm(e) for e in par.targets[0].elts]
+    if isinstance(par, ast.Assign) and isinstance(par.targets[0], ast.Name):
+        tmp = par.targets[0].id
+        later = [n for n in walk_own(vp.node) if isinstance(n, ast.Assign) and isinstance(n.value, ast.Name) and n.value.id == tmp and isinstance(n.targets[0], ast.Tuple)]
+        if len(later) == 1:
+            return [norm(e) for e in later[0].targets[0].elts]
+    return []
+
+
 def _scrypt(fi):
     cs = calls_named(fi, "Scrypt")
     return cs[0] if len(cs) == 1 else None
@@ -278,14 +329,27 @@ def r3(ctx):
     ctx.check(ok, "C19.R3", hp, "parameter block: same struct format on both sides", witness={"pack": [s.fmt for s in p], "unpack": [s.fmt for s in u]})
     if ok:
         pa = [norm(a) for a in p[0].args]
-        ua = [norm(e) for e in u[0].call._parent.targets[0].elts] if isinstance(u[0].call._parent, ast.Assign) and isinstance(u[0].call._parent.targets[0], ast.Tuple) else []
-        if not ua and isinstance(u[0].call._parent, ast.Assign) and isinstance(u[0].call._parent.targets[0], ast.Name):
-            # the tuple is held in a temporary first: x = struct.unpack(...); a, b, c = x
-            tmp = u[0].call._parent.targets[0].id
-            later = [n for n in walk_own(vp.node) if isinstance(n, ast.Assign) and isinstance(n.value, ast.Name) and n.value.id == tmp and isinstance(n.targets[0], ast.Tuple)]
-            if len(later) == 1:
-                ua = [norm(e) for e in later[0].targets[0].elts]
-        ctx.check(pa == ["N", "r", "p", "Auth.SALT_LENGTH", "Auth.DIGEST_LENGTH"] and ua == ["N", "r", "p", "salt_length", "length"], "C19.R3", vp,
+        ua = _unpack_targets(vp, u[0])
+        # by position and value: what is packed at (0, 1, 2, 4) is what the writer's Scrypt gets as (n, r, p, length) and what is
+        # packed at 3 is the number of salt bytes drawn; what is unpacked at (0, 1, 2, 4) is what the reader's Scrypt gets, and
+        # position 3 cuts the salt off the decoded data
+        from .common import sym_text as _sx
+        hcfg_, vcfg_ = cfg_of(hp), cfg_of(vp)
+
+        def hv(e, at):
+            return _sx(hp, e, hcfg_.node_of(at)) if e is not None else None
+        sh_, sv_ = _scrypt(hp), _scrypt(vp)
+        okw = sh_ is not None and len(pa) == 5
+        if okw:
+            wa = [hv(x, sh_) for x in _scrypt_args(sh_)]
+            pv_ = [hv(x, p[0].call) for x in p[0].args]
+            ur = [c for c in walk_own(hp.node) if isinstance(c, ast.Call) and norm(c.func) in CSPRNG and c.args]
+            okw = pv_[0:3] == wa[2:5] and pv_[4] == wa[1] and len(ur) == 1 and hv(ur[0].args[0], ur[0]) == pv_[3]
+        okr = sv_ is not None and len(ua) == 5
+        if okr:
+            ra = [norm(x) if x is not None else None for x in _scrypt_args(sv_)]
+            okr = ua[0:3] == ra[2:5] and ua[4] == ra[1]
+        ctx.check(okw and okr, "C19.R3", vp,
                   "parameters (N, r, p, salt length, digest length) in the same order", witness={"pack": pa, "unpack": ua})
     # header / separator / constants
     hcfg = cfg_of(hp)
@@ -319,6 +383,18 @@ def r3(ctx):
                     if (ft_, b_.value) in (("%s[0]" % pv, b"scrypt"), ("%s[1]" % pv, b"1")):
                         mism[n.id] = "F" if isinstance(n.ast.ops[0], ast.Eq) else "T"
                         seen.add(ft_)
+    # ... or both at once: tuple(parts[:2]) != (b'scrypt', b'1')  (the constant may be a module-level tuple)
+    for n in vcfg.nodes:
+        if n.kind == "test" and isinstance(n.ast, ast.Compare) and len(n.ast.ops) == 1 and isinstance(n.ast.ops[0], (ast.Eq, ast.NotEq)):
+            l, r_ = n.ast.left, n.ast.comparators[0]
+            for (a_, b_) in ((l, r_), (r_, l)):
+                inner = a_.args[0] if isinstance(a_, ast.Call) and norm(a_.func) in ("tuple", "list") and len(a_.args) == 1 else a_
+                if isinstance(inner, ast.Subscript) and norm(inner.value) == pv and isinstance(inner.slice, ast.Slice) and inner.slice.lower is None \
+                        and isinstance(inner.slice.upper, ast.Constant) and inner.slice.upper.value == 2 and inner.slice.step is None:
+                    cv = ctx.folder.fold(b_, vp.module)
+                    if isinstance(cv, (tuple, list)) and list(cv) == [b"scrypt", b"1"] and isinstance(cv, tuple) == (isinstance(a_, ast.Call) and norm(a_.func) == "tuple"):
+                        mism[n.id] = "F" if isinstance(n.ast.ops[0], ast.Eq) else "T"
+                        seen.update({"%s[0]" % pv, "%s[1]" % pv})
     kv = [c for c in calls_named(vp, "verify") if norm(c.func) == "kdf.verify"]
     okc = len(seen) == 2 and bool(kv)
     if okc:
@@ -332,7 +408,22 @@ def r3(ctx):
     ctx.check(okc, "C19.R3", vp, "kind and version are compared with the writer's constants (either mismatch raises)",
               witness=sorted(norm(vcfg.nodes[k].ast) for k in mism))
     asg = {norm(n.targets[0]): n.value for n in walk_own(vp.node) if isinstance(n, ast.Assign) and len(n.targets) == 1}
+    # a, b = [f(x) for x in parts[k:]]: the i-th target is f(parts[k + i])  (the unpacking fixes the count)
+    comp = {}
+    for n in walk_own(vp.node):
+        if isinstance(n, ast.Assign) and len(n.targets) == 1 and isinstance(n.targets[0], ast.Tuple) and all(isinstance(e, ast.Name) for e in n.targets[0].elts) \
+                and isinstance(n.value, (ast.ListComp, ast.GeneratorExp)) and len(n.value.generators) == 1 and not n.value.generators[0].ifs \
+                and isinstance(n.value.generators[0].target, ast.Name) and isinstance(n.value.generators[0].iter, ast.Subscript) \
+                and norm(n.value.generators[0].iter.value) == pv and isinstance(n.value.generators[0].iter.slice, ast.Slice) \
+                and isinstance(n.value.generators[0].iter.slice.lower, ast.Constant) and n.value.generators[0].iter.slice.upper is None:
+            k0 = n.value.generators[0].iter.slice.lower.value
+            var = n.value.generators[0].target.id
+            for i_, e in enumerate(n.targets[0].elts):
+                comp[e.id] = norm(n.value.elt).replace(var, "%s[%d]" % (pv, k0 + i_)) if norm(n.value.elt).count(var) == 1 else None
+
     def _fld(name):
+        if name in comp:
+            return comp[name]
         if name in fields:
             return "%s[%d]" % (pv, fields[name])
         v = asg.get(name)
@@ -346,6 +437,24 @@ def r3(ctx):
     ctx.check(okp, "C19.R3", vp, "field positions: kind, version, params, data", witness=got)
     asg = {k: norm(v) for k, v in asg.items()}
     # salt + out layout
+    # (the last part is b64encode(salt + <what kdf.derive returned>), through temporaries or in place)
+    def data_ok(part):
+        from .common import sym_expr as _se5
+        try:
+            e = ast.parse(part, mode="eval").body if isinstance(part, str) else None
+        except SyntaxError:
+            return False
+        if not (isinstance(e, ast.Call) and norm(e.func) == "base64.b64encode" and len(e.args) == 1):
+            return False
+        arg = e.args[0]
+        at_ = hcfg.node_of(hrets[0])
+        arg = _se5(hp, arg, at_, allow_calls=("kdf.derive", "digest.finalize")) if isinstance(arg, ast.Name) else arg
+        if not (isinstance(arg, ast.BinOp) and isinstance(arg.op, ast.Add) and norm(arg.left) == "salt"):
+            return False
+        r_ = _se5(hp, arg.right, at_, allow_calls=("kdf.derive", "digest.finalize")) if isinstance(arg.right, ast.Name) else arg.right
+        return isinstance(r_, ast.Call) and norm(r_.func) == "kdf.derive"
+    if flat is not None and len(flat) == 4 and data_ok(flat[3]):
+        flat = flat[:3] + [want_flat[3]]
     ctx.check(flat is not None and flat[3:] == want_flat[3:], "C19.R3", hp, "data = b64(salt + digest)", witness=[repr(x) for x in (flat or [])])
     ctx.check(asg.get("salt") == "data[:salt_length]" and asg.get("expected") == "data[salt_length:]", "C19.R3", vp, "salt = data[:salt_length], digest = data[salt_length:]",
               witness={k: asg.get(k) for k in ("salt", "expected")})
@@ -353,22 +462,44 @@ def r3(ctx):
     ctx.check("password_hash.encode('utf-8')" in norm(sp[0].func) if sp else False, "C19.R3", vp, "the hash string is encoded with the writer's codec before splitting")
     # same pre-hash
     def prehash(fi):
-        return [norm(n) for n in walk_own(fi.node) if isinstance(n, (ast.Assign, ast.Expr)) and ("digest" in norm(n)) and "hashes" in norm(n) or (isinstance(n, (ast.Assign, ast.Expr)) and norm(n).startswith(("digest.", "key_material =")))]
+        """(hash object construction, what is fed to it, who consumes finalize()) - the consumer through a temporary or in place"""
+        from .common import sym_text as _sx6
+        ctor = [norm(n.value) for n in walk_own(fi.node) if isinstance(n, ast.Assign) and norm(n.targets[0]) == "digest"]
+        upd = [norm(c.args[0]) for c in calls_named(fi, "update") if norm(c.func) == "digest.update" and c.args]
+        use = []
+        for c in walk_own(fi.node):
+            if isinstance(c, ast.Call) and norm(c.func) in ("kdf.derive", "kdf.verify") and c.args:
+                use.append(_sx6(fi, c.args[0], cfg_of(fi).node_of(c), allow_calls=("digest.finalize",)))
+        return [ctor, upd, use]
     a, b = prehash(hp), prehash(vp)
-    ctx.check(a == b and len(a) == 3 and "SHA256" in a[0], "C19.R3", vp, "both sides pre-hash the password identically (SHA-256)", witness={"hash_password": a, "verify_password": b})
+    okh_ = a == b and len(a[0]) == 1 and "SHA256" in a[0][0] and a[1] == [hp.params[0]] and a[2] == ["digest.finalize()"]
+    ctx.check(okh_, "C19.R3", vp, "both sides pre-hash the password identically (SHA-256)", witness={"hash_password": a, "verify_password": b})
     # Scrypt argument order
     sh, sv = _scrypt(hp), _scrypt(vp)
     ah = [norm(x) if x is not None else None for x in _scrypt_args(sh)] if sh is not None else None
     av = [norm(x) if x is not None else None for x in _scrypt_args(sv)] if sv is not None else None
-    ok = ah == ["salt", "Auth.DIGEST_LENGTH", "N", "r", "p"] and av == ["salt", "length", "N", "r", "p"]
+    ok = ah is not None and av is not None and ah[0] == "salt" and av[0] == "salt" and None not in ah and None not in av
+    if ok and p and u:
+        from .common import sym_text as _sx2
+        pa2 = [_sx2(hp, x, cfg_of(hp).node_of(p[0].call)) for x in p[0].args]
+        ah2 = [_sx2(hp, x, cfg_of(hp).node_of(sh)) for x in _scrypt_args(sh)]
+        ua2 = _unpack_targets(vp, u[0])
+        ok = len(pa2) == 5 and len(ua2) == 5 and ah2[1:] == [pa2[4], pa2[0], pa2[1], pa2[2]] and av[1:] == [ua2[4], ua2[0], ua2[1], ua2[2]]
     ctx.check(ok, "C19.R3", vp, "Scrypt(salt, length, N, r, p) on both sides", witness={"hash": ah, "verify": av})
     der = calls_named(hp, "derive")
-    ctx.check(len(der) == 1 and norm(der[0].args[0]) == "key_material" and isinstance(der[0]._parent, ast.Assign) and norm(der[0]._parent.targets[0]) == "out", "C19.R3", hp, "digest = kdf.derive(pre-hashed password)")
+    from .common import sym_text as _sx4
+    dtxt = _sx4(hp, der[0].args[0], cfg_of(hp).node_of(der[0]), allow_calls=("digest.finalize",)) if len(der) == 1 and der[0].args else None
+    ctx.check(len(der) == 1 and dtxt in ("key_material", "digest.finalize()"), "C19.R3", hp, "digest = kdf.derive(pre-hashed password)", witness=dtxt)
     # constants
     A = ctx.repo.cls("auth:Auth")
     sl, dl = ctx.folder.class_attr(A, "SALT_LENGTH"), ctx.folder.class_attr(A, "DIGEST_LENGTH")
     ctx.check(isinstance(sl, int) and isinstance(dl, int) and 8 <= sl <= 255 and 16 <= dl <= 255, "C19.R3", A, "salt and digest lengths fit their one-byte fields and are not trivially short", witness={"SALT_LENGTH": sl, "DIGEST_LENGTH": dl})
-    nv = {norm(n.targets[0]): ctx.folder.fold(n.value, hp.module) for n in walk_own(hp.node) if isinstance(n, ast.Assign) and norm(n.targets[0]) in ("N", "r", "p")}
+    # (the values that reach the writer's Scrypt as n, r, p - named locals, literals or a module constant)
+    nv = {}
+    if sh is not None:
+        from .common import sym_expr as _se3
+        for nm, x in zip(("N", "r", "p"), _scrypt_args(sh)[2:5]):
+            nv[nm] = ctx.folder.fold(_se3(hp, x, cfg_of(hp).node_of(sh)), hp.module) if x is not None else None
     ctx.check(nv == {"N": 16384, "r": 16, "p": 1}, "C19.R3", hp, "documented scrypt parameters N=16384, r=16, p=1 (fit the H/B/B fields)", witness=nv)
 
 
